@@ -111,15 +111,19 @@ func (e *Engine) shortName(fn *ssa.Function) string {
 	}
 	var base string
 	if fn.Parent() != nil {
-		// closure: parent name + suffix of own name after parent's base name
-		pn := e.shortName(fn.Parent())
-		own := fn.Name() // e.g. "openSent$1"
+		// closure: go/ssa names it <top-level name>$i$j...; keep that chain
+		root := fn
+		for root.Parent() != nil {
+			root = root.Parent()
+		}
+		rs := e.shortName(root) // e.g. "fsm.established"
+		own := fn.Name()        // e.g. "established$2$1"
 		k := strings.Index(own, "$")
 		suffix := ""
 		if k >= 0 {
 			suffix = own[k:]
 		}
-		return pn + suffix
+		return rs + suffix
 	}
 	name := fn.Name()
 	if k := strings.Index(name, "["); k >= 0 {
